@@ -332,6 +332,21 @@ func cmdCheck(args []string) int {
 	for _, a := range assumedContracts {
 		assumptions = append(assumptions, "contract used at call sites: "+a)
 	}
+	// bounded stand-ins (labelled bounded, never counted as proved)
+	boundedNotes := []string{}
+	for _, be := range loadBounded(*verif) {
+		if be.Property != *prop || *only != "" {
+			continue
+		}
+		ok, out := runBounded(*verif, *repo, be, *tier)
+		if ok {
+			boundedNotes = append(boundedNotes, be.Name+": "+be.What+" ["+*tier+" bound passed]")
+		} else {
+			rp := writeReplay(outDir, *prop, be.Name, "bounded stand-in failed: "+be.What+"\n"+out, nil, nil)
+			violations = append(violations, fmt.Sprintf("VIOLATION property=%s replay=%s", *prop, rp))
+			fmt.Printf("FAILED %s [bounded harness]\n", be.Name)
+		}
+	}
 	ev := map[string]interface{}{
 		"property_id": *prop, "tier": *tier, "seed": 0, "level": "proof", "wall_s": round3(wall), "violations": len(violations),
 		"coverage": map[string]interface{}{
@@ -340,7 +355,7 @@ func cmdCheck(args []string) int {
 			"trusted_base": []string{"govc VC generator (this repository) + golang.org/x/tools/go/ssa v0.29.0", "SMT solvers z3 5.1.0 / z3 4.8.12 / cvc5 1.0.3", "prelude models in /verif/govc/builtins.go and /verif/specs/*.spec", "assumed contracts listed under assumptions"},
 			"functions_under_contract": fucs, "transparent_inlined": inlined, "by_backend": byBackend, "solver_s": round3(solverS),
 			"load_s": round3(loadS), "vcgen_s": round3(genS), "samples": samples, "vacuity_checks_passed": vac,
-			"known_findings_hit": knownHit, "bounded": []string{}, "exhaustive": false,
+			"known_findings_hit": knownHit, "bounded": boundedNotes, "exhaustive": false,
 		},
 		"assumptions": assumptions,
 	}
